@@ -10,8 +10,9 @@ def replyId : Op → Option Nat | .reply e => some e | _ => none
 /-- ids of exchanges come from `start` operations -/
 theorem step_ids (s : St) (op : Op) :
     ∀ x ∈ (step s op).exs, (∃ y ∈ s.exs, y.id = x.id) ∨ startId op = some x.id := by
+  rw [step_exs]
   cases op <;>
-    simp only [step, startOp, dialOkOp, dialErrOp, replyOp, cancelOp, timerOp, closeOp, failWaiters] <;>
+    simp only [step0, startOp, dialOkOp, dialErrOp, replyOp, cancelOp, timerOp, closeOp, failWaiters] <;>
     intro x hx <;> repeat' split at hx
   all_goals
     first
@@ -39,9 +40,10 @@ theorem run_ids (s : St) (l : List Op) :
 theorem step_closed_new (B : List Nat) (s : St) (op : Op) (hc : s.closed = true)
     (h : ∀ x ∈ s.exs, x.id ∈ B ∨ x.res = some .err) :
     ∀ x ∈ (step s op).exs, x.id ∈ B ∨ x.res = some .err := by
+  rw [step_exs]
   cases op with
   | start e b =>
-    simp only [step, startOp, hc, if_true]
+    simp only [step0, startOp, hc, if_true]
     split
     · exact h
     · intro x hx
@@ -49,15 +51,16 @@ theorem step_closed_new (B : List Nat) (s : St) (op : Op) (hc : s.closed = true)
       rcases hx with hx | rfl
       · exact h x hx
       · simp
-  | close => simpa [step, closeOp, hc] using h
+  | close => simpa [step0, closeOp, hc] using h
   | trunc e => exact h
+  | burn k => exact h
   | timer =>
-    simp only [step, timerOp]
+    simp only [step0, timerOp]
     intro x hx
     repeat' split at hx
     all_goals exact h x hx
   | _ =>
-    simp only [step, dialOkOp, dialErrOp, replyOp, cancelOp, failWaiters, hc, if_true]
+    simp only [step0, dialOkOp, dialErrOp, replyOp, cancelOp, failWaiters, hc, if_true]
     intro x hx
     repeat' split at hx
     all_goals
@@ -73,9 +76,10 @@ theorem step_closed_new (B : List Nat) (s : St) (op : Op) (hc : s.closed = true)
 theorem step_ok (s : St) (op : Op) :
     ∀ x ∈ (step s op).exs, x.res = some .ok →
       (∃ y ∈ s.exs, y.id = x.id ∧ y.res = some .ok) ∨ replyId op = some x.id := by
+  rw [step_exs]
   cases op with
   | start e b =>
-    simp only [step, startOp]
+    simp only [step0, startOp]
     intro x hx hr
     repeat' split at hx
     all_goals
@@ -86,7 +90,7 @@ theorem step_ok (s : St) (op : Op) :
          · exact Or.inl ⟨x, hx, rfl, hr⟩
          · simp at hr)
   | close =>
-    simp only [step, closeOp]
+    simp only [step0, closeOp]
     intro x hx hr
     split at hx
     · exact Or.inl ⟨x, hx, rfl, hr⟩
@@ -99,13 +103,14 @@ theorem step_ok (s : St) (op : Op) :
       · repeat' split at hr
         all_goals first | exact hr | (cases hyr : y.res <;> simp_all)
   | trunc e => intro x hx hr; exact Or.inl ⟨x, hx, rfl, hr⟩
+  | burn k => intro x hx hr; exact Or.inl ⟨x, hx, rfl, hr⟩
   | timer =>
-    simp only [step, timerOp]
+    simp only [step0, timerOp]
     intro x hx hr
     repeat' split at hx
     all_goals exact Or.inl ⟨x, hx, rfl, hr⟩
   | reply e =>
-    simp only [step, replyOp]
+    simp only [step0, replyOp]
     intro x hx hr
     repeat' split at hx
     all_goals
@@ -117,19 +122,19 @@ theorem step_ok (s : St) (op : Op) :
          · right; simp [replyId, hid]
          · left; exact ⟨y, hy, by simp [hid], by simpa [hid] using hr⟩)
   | cancel e =>
-    simp only [step, cancelOp, List.mem_map]
+    simp only [step0, cancelOp, List.mem_map]
     rintro x ⟨y, hy, rfl⟩ hr
     split at hr
     · simp at hr
     · left; exact ⟨y, hy, by simp_all, hr⟩
   | dialErr d =>
-    simp only [step, dialErrOp]
+    simp only [step0, dialErrOp]
     intro x hx hr
     split at hx
     · exact Or.inl ⟨x, hx, rfl, hr⟩
     · exact Or.inl (failWaiters_ok d s.exs x hx hr)
   | dialOk d =>
-    simp only [step, dialOkOp]
+    simp only [step0, dialOkOp]
     intro x hx hr
     repeat' split at hx
     · exact Or.inl ⟨x, hx, rfl, hr⟩
@@ -150,12 +155,14 @@ structure NoStub (s : St) : Prop where
 
 theorem step_nostub (s : St) (op : Op) (hop : isStubStart op = false) (hi : Inv s) (h : NoStub s) :
     NoStub (step s op) := by
+  suffices h0 : NoStub (step0 s op) from
+    ⟨by rw [step_dials]; exact h0.dials, by rw [step_atClose]; exact h0.atc⟩
   obtain ⟨hd, ha⟩ := h
   cases op with
   | start e b =>
     have hb : b = false := by cases b <;> simp_all [isStubStart]
     subst hb
-    simp only [step, startOp]
+    simp only [step0, startOp]
     repeat' split
     all_goals
       constructor
@@ -163,11 +170,11 @@ theorem step_nostub (s : St) (op : Op) (hop : isStubStart op = false) (hi : Inv 
       · exact ha
   | close =>
     by_cases hc : s.closed = true
-    · simpa [step, closeOp, hc] using (⟨hd, ha⟩ : NoStub s)
+    · simpa [step0, closeOp, hc] using (⟨hd, ha⟩ : NoStub s)
     · have hc' : s.closed = false := by simpa using hc
       have hb := close_blocked s hi.waiting hc'
       constructor
-      · simp only [step, closeOp, hc', Bool.false_eq_true, if_false, List.mem_filter]; grind
+      · simp only [step0, closeOp, hc', Bool.false_eq_true, if_false, List.mem_filter]; grind
       · have hat : (closeOp s).atClose = some (((closeOp s).exs.filter (·.res.isNone)).map (·.id)) := by
           simp [closeOp, hc']
         have hnil : (closeOp s).exs.filter (·.res.isNone) = [] := by
@@ -178,15 +185,16 @@ theorem step_nostub (s : St) (op : Op) (hop : isStubStart op = false) (hi : Inv 
           simp only [closeOp, hc', Bool.false_eq_true, if_false, List.mem_filter] at hdm
           have := hd d hdm.1
           simp_all
-        simp only [step, hat, hnil]
+        simp only [step0, hat, hnil]
         rfl
   | trunc e => exact ⟨hd, ha⟩
+  | burn k => exact ⟨hd, ha⟩
   | timer =>
-    simp only [step, timerOp]
+    simp only [step0, timerOp]
     repeat' split
     all_goals exact ⟨hd, ha⟩
   | _ =>
-    simp only [step, dialOkOp, dialErrOp, replyOp, cancelOp]
+    simp only [step0, dialOkOp, dialErrOp, replyOp, cancelOp]
     repeat' split
     all_goals
       first
